@@ -19,6 +19,7 @@ def run(tier, seed):
         run_hex(rep, f"H4xST29L batch<=1 prune={prune}", universe="H4", values=("S", "T29", "L"), prune=prune, props=P, batch_len=1,
                 exits=("commit", "abort"))
         run_hex(rep, f"HW4xSL direct prune={prune} (slots 0 and 15, branch value)", universe="HW4", values=("S", "L"), prune=prune, props=P)
+        run_hex(rep, f"HXXLxSL direct prune={prune} (130-byte keys)", universe="HXXL", values=("S", "L"), prune=prune, props=P)
         run_hex(rep, f"HVxSL direct prune={prune} (empty key, 20-byte key, two 34-byte keys)", universe="HV", values=("S", "L"), prune=prune, props=P)
         run_hex(rep, f"HW4 x single-byte / RLP-boundary values prune={prune}", universe="HW4", values=("Z00", "B80", "V55", "V56"), prune=prune, props=P)
         run_hex(rep, f"HL4xST29X direct prune={prune} (32-byte keys, long extensions, 60-byte values)", universe="HL", values=("S", "T29", "X"), prune=prune, props=P)
